@@ -90,12 +90,12 @@ __CPROVER_ensures((g_w < __CPROVER_old(g_cnt) || g_w >= g_cnt) ==> g_w_seen == _
 ;
 size_t g_cnt0, g_bytes0, g_size0;
 //@loop LogEntry_pages_append_to_iovec 1
-//@  __CPROVER_assigns(i, size, g_cnt, g_bytes, g_w_base, g_w_len, g_w_seen, g_last)
-//@  __CPROVER_loop_invariant(i <= num && num == __CPROVER_loop_entry(size) / VF_PS && size == __CPROVER_loop_entry(size) - i * VF_PS)
-//@  __CPROVER_loop_invariant(g_cnt == __CPROVER_loop_entry(g_cnt) + i && g_bytes == __CPROVER_loop_entry(g_bytes) + i * VF_PS)
+//@  __CPROVER_assigns(@l2@, @p2@, g_cnt, g_bytes, g_w_base, g_w_len, g_w_seen, g_last)
+//@  __CPROVER_loop_invariant(@l2@ <= @l1@ && @l1@ == __CPROVER_loop_entry(@p2@) / VF_PS && @p2@ == __CPROVER_loop_entry(@p2@) - @l2@ * VF_PS)
+//@  __CPROVER_loop_invariant(g_cnt == __CPROVER_loop_entry(g_cnt) + @l2@ && g_bytes == __CPROVER_loop_entry(g_bytes) + @l2@ * VF_PS)
 //@  __CPROVER_loop_invariant((g_w >= __CPROVER_loop_entry(g_cnt) && g_w < g_cnt) ==> (g_w_seen && g_w_base == (void *)g_parr[g_w - __CPROVER_loop_entry(g_cnt)] && g_w_len == VF_PS))
 //@  __CPROVER_loop_invariant((g_w < __CPROVER_loop_entry(g_cnt) || g_w >= g_cnt) ==> g_w_seen == __CPROVER_loop_entry(g_w_seen))
-//@  __CPROVER_decreases(num - i)
+//@  __CPROVER_decreases(@l1@ - @l2@)
 //@end
 
 /* ================= writer ================= */
